@@ -298,7 +298,21 @@ fn main() -> Result<()> {
             };
 
             let output_bin = matches!(output_format, CompilationTargets::Binary);
-            compile(&path, output_bin, !quick, true, false)?;
+
+            // The parser and the AST builders are recursive-descent: long operator or `or` chains
+            // recurse once per operand. Give the compiler room instead of the main thread's stack.
+            const COMPILER_STACK_SIZE: usize = 256 * 1024 * 1024;
+
+            let compiler_thread = thread::Builder::new()
+                .name("mscript-compiler".into())
+                .stack_size(COMPILER_STACK_SIZE)
+                .spawn(move || compile(&path, output_bin, !quick, true, false).map(|_| ()))?;
+
+            match compiler_thread.join() {
+                Ok(result) => result?,
+                // an internal error of the compiler stays what it was on the main thread
+                Err(panic) => std::panic::resume_unwind(panic),
+            }
         }
         Commands::Clean { path } => {
             clean_command(&path)?;
